@@ -5,6 +5,7 @@ import (
 	"go/ast"
 	"go/token"
 	"go/types"
+	"sort"
 
 	"sialint/internal/cfgx"
 	"sialint/internal/ir"
@@ -89,9 +90,10 @@ func c14r1(c *Ctx) {
 			}
 		}
 		reach := g.Reach(start, nil)
+		kinds := f.ReturnKindsFrom(start) // per path: an error variable set to nil on the way is a success return
 		bad := false
 		for _, r := range g.Returns() {
-			if v, ok := reach[r]; ok && errorish(f.ClassifyReturn(r)) {
+			if v, ok := reach[r]; ok && errorishKinds(kinds[r]) {
 				ob.Bad(c.Witness(v), "return at %s can carry an error (%s) after the pool contents were written at %s: a rejected set is partially added",
 					c.P.Pos(r.Pos()), f.ClassifyReturn(r), c.P.Pos(writes[0].Pos()))
 				bad = true
@@ -113,10 +115,12 @@ func c14r1(c *Ctx) {
 			for _, e := range n.Succs {
 				st = append(st, cfgx.StartAfter(e, 0))
 			}
-			r2 := g.Reach(st, func(m *cfgx.Node) bool { return isNilAssign(f, m, pf.ms) })
+			discards := func(m *cfgx.Node) bool { return isNilAssign(f, m, pf.ms) }
+			r2 := g.Reach(st, discards)
+			k2 := f.ReturnKindsFromAvoiding(st, discards)
 			bad2 := false
 			for _, r := range g.Returns() {
-				if v, ok := r2[r]; ok && errorish(f.ClassifyReturn(r)) {
+				if v, ok := r2[r]; ok && errorishKinds(k2[r]) {
 					ob2.Bad(c.Witness(v), "error-capable return at %s is reachable after %s without discarding the mid-state (txpool.ms = nil)", c.P.Pos(r.Pos()), callName(call.Fn))
 					bad2 = true
 					break
@@ -301,10 +305,11 @@ func c14r3(c *Ctx) {
 				}
 			}
 		}
-		for _, f := range methods {
-			if !exported(f) {
+		for _, bf := range methods {
+			if !exported(bf) {
 				continue
 			}
+			f := getChainRoles(c.P).view(bf) // helpers and bracket literals expanded
 			mentions := f.MentionsField(f.Body, true, kind.fld)
 			if !mentions {
 				for _, call := range f.Calls(true) {
@@ -371,7 +376,8 @@ func containsNode(root ast.Node, target ast.Node) bool {
 
 // c14r4: copy-in.
 func c14r4(c *Ctx) {
-	f := c.P.Fn("chain", "Manager", "AddV2PoolTransactions")
+	bf := c.P.Fn("chain", "Manager", "AddV2PoolTransactions")
+	f := getChainRoles(c.P).view(bf) // helpers and bracket literals expanded
 	deepCopy := c.P.Method("types", "V2Transaction", "DeepCopy")
 	g := f.Graph()
 	c.VisitGraph(f)
@@ -388,6 +394,27 @@ func c14r4(c *Ctx) {
 		ob.Unknown("no []types.V2Transaction parameter found")
 		return
 	}
+	// plain copies of the parameter (`p2 := p`, as a helper's parameter binding) share its memory: they are the parameter
+	isParam := map[types.Object]bool{param: true}
+	aliasDef := map[*cfgx.Node]bool{}
+	for changed := true; changed; {
+		changed = false
+		for _, n := range g.Nodes {
+			as, ok := n.AST.(*ast.AssignStmt)
+			if !ok || len(as.Rhs) != 1 || len(as.Lhs) != 1 || as.Tok != token.DEFINE {
+				continue
+			}
+			if src := f.ObjOf(as.Rhs[0]); src != nil && isParam[src] {
+				if _, isID := ast.Unparen(as.Rhs[0]).(*ast.Ident); isID {
+					if dst := f.ObjOf(as.Lhs[0]); dst != nil && !isParam[dst] {
+						isParam[dst] = true
+						aliasDef[n] = true
+						changed = true
+					}
+				}
+			}
+		}
+	}
 	// idiom A: p' = slices.Clone(p); for i := range p' { p'[i] = p'[i].DeepCopy() }
 	var cloneNode, dcNode *cfgx.Node
 	var cloned types.Object
@@ -401,7 +428,7 @@ func c14r4(c *Ctx) {
 			continue
 		}
 		fn := f.Callee(call)
-		if fn != nil && fn.Pkg() != nil && fn.Pkg().Path() == "slices" && fn.Name() == "Clone" && f.ObjOf(call.Args[0]) == param {
+		if fn != nil && fn.Pkg() != nil && fn.Pkg().Path() == "slices" && fn.Name() == "Clone" && isParam[f.ObjOf(call.Args[0])] {
 			cloneNode, cloned = n, f.ObjOf(as.Lhs[0])
 		}
 	}
@@ -462,12 +489,16 @@ func c14r4(c *Ctx) {
 		call, ok := ast.Unparen(rhs).(*ast.CallExpr)
 		return ok && v2CopierCall(f, call)
 	}
-	objs := []types.Object{param}
-	if cloned != nil && cloned != param {
+	var objs []types.Object
+	for o := range isParam {
+		objs = append(objs, o)
+	}
+	sort.Slice(objs, func(i, j int) bool { return objs[i].Pos() < objs[j].Pos() })
+	if cloned != nil && !isParam[cloned] {
 		objs = append(objs, cloned)
 	}
 	for _, n := range g.Nodes {
-		if n == cloneNode || n == dcNode || n.AST == nil {
+		if n == cloneNode || n == dcNode || n.AST == nil || aliasDef[n] {
 			continue
 		}
 		if _, isRange := n.AST.(*ast.RangeStmt); isRange {
@@ -639,6 +670,12 @@ func positionMapsKindSafe(c *Ctx) {
 	if len(maps) == 0 {
 		ir.Fail("no position map built from the pool lists found")
 	}
+	builders := map[*types.Func]bool{}
+	for _, b := range maps {
+		builders[b.helper.Obj] = true
+	}
+	roleStop := getChainRoles(c.P).stop
+	callers := c.P.Views("chain", ir.ExpandOpt{Key: "position-maps", Stop: func(fn *types.Func) bool { return builders[fn] || roleStop(fn) }}).Roots
 	for _, b := range maps {
 		c.VisitGraph(b.helper)
 		ob := c.Ob(b.helper, fmt.Sprintf("position-map-single-kind/result%d", b.result), b.helper.Body.Pos())
@@ -651,8 +688,8 @@ func positionMapsKindSafe(c *Ctx) {
 		for f := range b.fill {
 			fill = f
 		}
-		// uses in callers
-		for _, caller := range methods {
+		// uses in callers (their helpers and closures expanded, the map builders kept as calls)
+		for _, caller := range callers {
 			for _, call := range caller.CallsTo(false, b.helper.Obj) {
 				n := caller.Graph().NodeContaining(call.Pos())
 				as, ok := n.AST.(*ast.AssignStmt)
@@ -683,6 +720,10 @@ func positionMapsKindSafe(c *Ctx) {
 							return
 						}
 						fld := fn.FieldOf(ix.X)
+						if fld == nil {
+							// a local bound once to the list (a helper's parameter) is the list
+							fld = fn.FieldOf(origin(fn, ix.X))
+						}
 						if fld != pf.txns && fld != pf.v2txns {
 							return
 						}
